@@ -377,6 +377,11 @@ func (fr *Frame) enterLoop(li *loopInfo, pre *State, pc Term) *State {
 		}
 		if t != nil {
 			st.cells[c] = fr.freshTyped("loop:"+c.Name(), t, st, pc)
+			if a, ok := c.(*ssa.Alloc); ok && a.Comment == "rangeindex" {
+				// the builder's hidden range counter starts at -1 and is only
+				// ever incremented
+				vc.assume(pc, le(intLit(-1), st.cells[c]))
+			}
 		} else {
 			st.cells[c] = vc.fresh("loop:"+c.Name(), pre.cells[c].Sort)
 		}
